@@ -9,7 +9,7 @@ Base == [classes |-> {"A"}, methods |-> {"pt", "n"}, consts |-> {<<"int", 1, 1>>
          not |-> FALSE, boolConst |-> FALSE, ifexp |-> FALSE, aggs |-> {}, first |-> FALSE,
          index |-> FALSE, math |-> {}, colls |-> {<<"A", "bk1">>}, select |-> TRUE, where |-> TRUE,
          selectmany |-> FALSE, range |-> FALSE, rows |-> {"seq"}, topmid |-> {},
-         topwhere |-> FALSE, evwhere |-> FALSE]
+         topwhere |-> FALSE, evwhere |-> FALSE, rootnames |-> {}, start |-> "top", boolAsNum |-> FALSE]
 
 \* C01 core: the LINQ operators and their compositions
 ProfCore == [Base EXCEPT !.classes = {"A", "T"}, !.methods = {"pt", "n", "trks", "vals"},
@@ -19,4 +19,27 @@ ProfCore == [Base EXCEPT !.classes = {"A", "T"}, !.methods = {"pt", "n", "trks",
                !.topmid = {S(O("A"))}, !.range = TRUE, !.index = TRUE]
 
 ProfTiny == Base
+
+\* C03: every terminal form x element kind, implicit and explicit (AsROOTTTree) trees
+ProfSchema == [Base EXCEPT !.methods = {"pt", "n", "m", "ok"}, !.consts = {<<"int", 1, 1>>, <<"double", 1, 2>>},
+                 !.binops = {"/"}, !.ifexp = TRUE, !.aggs = {"Count"}, !.where = FALSE,
+                 !.rows = {"bool", "seq", "seqseq", "tuple", "list", "dict"}, !.rootnames = {1, 2}]
+
+\* C13: operators x operand kinds (int literal, int count, float, double, bool)
+ProfArith == [Base EXCEPT !.methods = {"pt", "m", "n", "ok"}, !.consts = {<<"int", 2, 1>>, <<"int", 7, 1>>, <<"double", 1, 2>>},
+                !.binops = {"+", "-", "*", "/", "%", "**"}, !.unops = {"-", "+"}, !.not = TRUE,
+                !.cmpops = {"<", "<=", ">", ">=", "==", "!="}, !.boolConst = TRUE,
+                !.aggs = {"Count", "Sum", "Min", "Max", "Aggregate"}, !.ifexp = TRUE,
+                !.select = FALSE, !.where = FALSE, !.rows = {"bool"}, !.first = FALSE, !.colls = {},
+                !.start = "perobj", !.boolAsNum = TRUE, !.methods = {"pt", "m", "n", "ok", "vals"}]
+
+\* C13 core table: every binary / comparison operator over every pair of operand kinds, exhaustively
+ProfArithTable == [ProfArith EXCEPT !.unops = {}, !.not = FALSE, !.aggs = {"Count"}, !.ifexp = FALSE, !.boolConst = FALSE]
+
+\* C04: partial operations (First, index, link dereference) under guards
+ProfFault == [Base EXCEPT !.methods = {"pt", "vals", "link"}, !.consts = {<<"int", 0, 1>>},
+                !.iconsts = {0, 1, 2}, !.cmpops = {">"}, !.boolops = {"And", "Or"}, !.ifexp = TRUE,
+                !.aggs = {"Count"}, !.first = TRUE, !.index = TRUE, !.rows = {"bool", "seq"},
+                !.evwhere = TRUE]
+
 =============================================================================
